@@ -358,6 +358,6 @@ def execute(case, ctx):
 
 MANIFEST = {
     "technique": "model-based property testing (Hypothesis-generated call histories judged against a Python model of the lattice after every step)",
-    "text": "Seeded random search over histories of addSite/addTerm/preset/getSite/getTerms/copy calls with valid and invalid arguments; after every step the stored terms and sites are compared with a reference model of the documented contract.",
+    "text": "Seeded random search over histories of addSite/addTerm/preset/getSite/getTerms/copy calls with valid and invalid arguments (amplitudes from 5e-324 to 1e30, labels with long common prefixes); after every step the stored terms and sites are compared with a reference model of the documented contract.",
     "note": "Trusted: the runner's dump of Lattice::getTermStorage()/getSiteMap(); labels unique per history.",
 }
